@@ -127,6 +127,7 @@ pub fn judge_recv(name: &str, sent: &[Value], recvs: &[RecvRes], stream_complete
                 i += 1;
             }
             RecvRes::Read(_) => {}
+            RecvRes::Retained => {}
             RecvRes::Closed => closed = true,
             RecvRes::Parse(e) => return Err(("parse-error".into(), format!("{}: parse error {}@{} on a well-formed stream {}", name, e.kind, e.pos, what))),
             RecvRes::Panic(m) | RecvRes::DropPanic(m) => {
